@@ -288,6 +288,13 @@ def run_shard(spec, ctx):
                 text = r['text'][1:] if r['text'].startswith('﻿') else r['text']
                 ctx.count('stdlib_files')
                 judge(ctx, v, text, r, f)
+        elif spec['kind'] == 'snippets_all':
+            for text in valid.VALID_SNIPPETS:
+                r = srv.ask({'op': 'both', 'text': text})
+                if r is None or 'fail' in r:
+                    continue
+                ctx.count('snippets_all')
+                judge(ctx, v, text, r, 'snippet')
         else:
             files = G.stdlib_files(v)[::7] + G.repo_files()
             gen = valid.candidates(rng, files, _deriver(v))
@@ -324,6 +331,7 @@ def shards(tier, seed):
         if tier == 'quick':
             out.append({'kind': 'stdlib', 'version': v, 'offset': seed % 12, 'stride': 12, 'budget_s': 100})
             out.append({'kind': 'generated', 'version': v, 'n': 2500, 'budget_s': 60})
+            out.append({'kind': 'snippets_all', 'version': v, 'budget_s': 60})
         else:
             for k in range(4):
                 out.append({'kind': 'stdlib', 'version': v, 'offset': k, 'stride': 4, 'budget_s': 3000})
